@@ -110,13 +110,13 @@ impl Bitstring32 {
     pub const EPSILON: Self = Bitstring32(FixedBinaryBuf::from_le_bytes([1, 0, 0, 34]));
 
     /// Smallest finite value.
-    pub const MIN: Self = Bitstring32(FixedBinaryBuf::from_le_bytes([255, 252, 227, 247]));
+    pub const MIN: Self = Bitstring32(FixedBinaryBuf::from_le_bytes([255, 252, 243, 247]));
 
     /// Smallest positive normal value.
     pub const MIN_POSITIVE: Self = Bitstring32(FixedBinaryBuf::from_le_bytes([1, 0, 0, 0]));
 
     /// Largest finite value.
-    pub const MAX: Self = Bitstring32(FixedBinaryBuf::from_le_bytes([255, 252, 227, 119]));
+    pub const MAX: Self = Bitstring32(FixedBinaryBuf::from_le_bytes([255, 252, 243, 119]));
 
     /// Minimum possible normal power of 10 exponent.
     pub const MIN_10_EXP: i32 = -101;
